@@ -68,6 +68,16 @@ CHECKS = {
             "For every enumerated program: each array declared exactly once before first use with bound+1 (11 per used dimension when never DIMensioned), no identifier declared twice, and with a non-32 default every string identifier (temporaries included) carries STRING[n] with the configured/default n.",
             "Trusted: vf/b09/syntax.py. Re-DIMensioning programs (?DD ERROR in Color BASIC) are outside the fragment.",
             "DESIGN.md §2 C10"),
+    "C08": ("model_checking",
+            "exhaustive enumeration of layouts of every catalogue statement with <= 2 deviating token boundaries (0/1/2 blanks, guarded boundaries 1/2) + frame variants (LF/CR/CRLF, blank and blank-only lines, NUL, ?, line-number blanks) + literal-internal blanks; all layouts of one abstract program must fall into one outcome class",
+            "Every layout in the bound is converted by the real convert(); the set of outcomes per abstract program must have size one (all refused or byte-identical text); content blanks in strings, DATA items and comments must appear verbatim.",
+            "Boundary typing (which blanks Color BASIC needs) is the trusted part: identifier/hex literal before letter or digit, number before digit/'.'/non-ELSE 'E'.",
+            "DESIGN.md §2 C08"),
+    "C11": ("model_checking",
+            "exhaustive enumeration of the 5-dimensional option cube (32 option sets, all 80 single-option flips) per corpus program with a metamorphic relation per option, plus all 32 CLI flag subsets (+ config file) through decb_to_b09.start",
+            "Each flip must change the text exactly as documented (labels of unreferenced lines stripped / prologue assignments and fill loops added / _ecb_start flag / library + header prepended / STRING[n] annotations); the CLI must write convert(text, mapped options, procname=input stem) with CR line ends.",
+            "Relations are computed from the outputs with the reference parser (jump targets) and textual shape patterns for pre-initialisation lines.",
+            "DESIGN.md §2 C11"),
 }
 
 PENDING_REASON = "check not built yet in this revision (work in progress; will be claimed when its explorer exists)"
